@@ -282,12 +282,23 @@ def dnfNormalizeTop {α} : Option (Filt α) → Option (DNF α)
 /-- a normalised `_filters` value re-read as the nested frozensets it is -/
 def Filt.ofDNF {α} (d : DNF α) : Filt α := .orS (d.map (fun c => .andS (c.map .tup)))
 
+/-! frozenset equality of normalised values (sets of sets of tuples), needed because
+    `_And([left, right])` / `_Or([left, right])` are frozensets: equal operands collapse into one element -/
+def conjSubset {α} [DecidableEq α] (c1 c2 : List α) : Bool := c1.all (fun a => c2.contains a)
+def conjSetEq {α} [DecidableEq α] (c1 c2 : List α) : Bool := conjSubset c1 c2 && conjSubset c2 c1
+def dnfSubset {α} [DecidableEq α] (d1 d2 : DNF α) : Bool := d1.all (fun c => d2.any (conjSetEq c))
+def dnfSetEq {α} [DecidableEq α] (d1 d2 : DNF α) : Bool := dnfSubset d1 d2 && dnfSubset d2 d1
+
+/-- the frozenset `{l, r}` of two normalised `_filters` values -/
+def pairSet {α} [DecidableEq α] (l r : DNF α) : List (Filt α) :=
+  if dnfSetEq l r then [Filt.ofDNF l] else [Filt.ofDNF l, Filt.ofDNF r]
+
 /-- `_DNF.combine` on the `_filters` of both sides -/
-def dnfCombine {α} (a b : Option (DNF α)) : Option (DNF α) :=
+def dnfCombine {α} [DecidableEq α] (a b : Option (DNF α)) : Option (DNF α) :=
   match a, b with
   | none, b => dnfNormalizeTop (b.map Filt.ofDNF)
   | some a, none => dnfNormalizeTop (some (Filt.ofDNF a))
-  | some a, some b => dnfNormalizeTop (some (.andS [Filt.ofDNF a, Filt.ofDNF b]))
+  | some a, some b => dnfNormalizeTop (some (.andS (pairSet a b)))
 
 /-- meaning of an optional filter: `None` filters nothing -/
 def evalODNF {α} (t : α → Bool) : Option (DNF α) → Bool
@@ -303,11 +314,11 @@ def extractPq : T Atom → Option (DNF Atom)
       | _ => none
   | .and l r => match extractPq l, extractPq r with
       | some dl, some dr =>
-          if !dl.isEmpty && !dr.isEmpty then dnfNormalizeTop (some (.andS [Filt.ofDNF dl, Filt.ofDNF dr])) else none
+          if !dl.isEmpty && !dr.isEmpty then dnfNormalizeTop (some (.andS (pairSet dl dr))) else none
       | _, _ => none
   | .or l r => match extractPq l, extractPq r with
       | some dl, some dr =>
-          if !dl.isEmpty && !dr.isEmpty then dnfNormalizeTop (some (.orS [Filt.ofDNF dl, Filt.ofDNF dr])) else none
+          if !dl.isEmpty && !dr.isEmpty then dnfNormalizeTop (some (.orS (pairSet dl dr))) else none
       | _, _ => none
   | .not _ => none
 
